@@ -903,6 +903,39 @@ def alias_and_purity_fixed(args) -> List[Tuple[str, Dict[str, Any], str, Any]]:
             fails.append(("AcceptedWithinRanges" if v == "accept" else "TotalTyped", {"cause": "huge-number"},
                           f"validate_config({ {k: {kk: '10**400' for kk in vv} for k, vv in doc.items()} }) -> {v} ({str(out)[:80]})", {"v": {}, "doc": {}}))
 
+    # numbers that only BECOME non-finite when the validator coerces them (strings "nan" / "inf", YAML's unquoted 1e999 which
+    # loads as a string, integers too large for a float) on keys whose range check is one-sided or blind to NaN: an
+    # accepted configuration holds finite numbers only
+    import math as _m
+
+    def nonfinite(x, path=""):
+        if isinstance(x, float) and not _m.isfinite(x):
+            return [path]
+        if isinstance(x, dict):
+            return [q for k_, v_ in x.items() for q in nonfinite(v_, f"{path}.{k_}" if path else str(k_))]
+        if isinstance(x, (list, tuple)):
+            return [q for i_, v_ in enumerate(x) for q in nonfinite(v_, f"{path}[{i_}]")]
+        return []
+    leaves = [("t1", "node_budget"), ("t4", "delta_norm_cap_l2"), ("t2", "hybrid", "max_bonus"), ("graph", "decay", "floor"), ("graph", "update", "alpha"),
+              ("t2", "quality", "lexical", "bm25_k1"), ("t2", "quality", "lexical", "bm25_b"), ("t2", "sim_threshold"), ("t2", "ranking", "alpha_sim")]
+    for path in leaves:
+        for bad in ("nan", "inf", "-Infinity", "1e999", 10 ** 400):
+            doc: Dict[str, Any] = {}
+            node = doc
+            for k_ in path[:-1]:
+                node = node.setdefault(k_, {})
+            node[path[-1]] = bad
+            if path[0] == "graph":
+                doc["graph"]["enabled"] = True
+            v, out = run_(doc)
+            shown = {"path": ".".join(path), "value": str(bad)[:12]}
+            if v.startswith("raise"):
+                fails.append(("TotalTyped", {"cause": "coerced-nonfinite-raised"}, f"validate_config with {shown} raised {v[6:]}", {"v": {}, "doc": {}}))
+            elif v == "accept":
+                bad_paths = nonfinite(out)
+                if bad_paths:
+                    fails.append(("AcceptedWithinRanges", {"cause": "coerced-nonfinite-accepted", "leaf": ".".join(path)},
+                                  f"validate_config with {shown} is accepted and the normalised configuration holds non-finite numbers at {bad_paths[:3]}", {"v": {}, "doc": {}}))
     # both spellings valid but different: the stage caches are built with the TTL the normalised configuration announces
     try:
         from .. import engine as E
